@@ -73,6 +73,19 @@ fn op_at(op_events: &[(u64, u64)], p: u64) -> Option<usize> {
     op_events.iter().position(|(s, e)| *s <= p && p <= *e)
 }
 
+/// What the crash analysis needs from an executed history (sequential or concurrent)
+pub struct CrashInput<'a> {
+    pub world: &'a World,
+    pub model: &'a crate::model::Model,
+    pub bs: usize,
+    pub params: DevParams,
+    pub sync_points: &'a [(u64, Vec<u8>)],
+    /// modifying operations with (a lower bound of) the event at which they were invoked
+    pub calls: Vec<(u64, Op)>,
+    /// what was executing at an event: (index of the operation or batch, kind)
+    pub phase: Box<dyn Fn(u64) -> (Option<usize>, &'static str) + 'a>,
+}
+
 pub fn run_crash(case: &CrashCase, cfg: &CrashCfg) -> CrashRun {
     let mut out = CrashRun {
         growth: Growth::default(),
@@ -107,10 +120,38 @@ pub fn run_crash(case: &CrashCase, cfg: &CrashCfg) -> CrashRun {
     out.foreign = run.violation.clone();
     let world = run.world.clone();
     let bs = run.final_params.as_ref().map(|p| p.bs()).unwrap_or(case.seq.params.bs());
-    let cs = run.model.cs;
+    let calls: Vec<(u64, Op)> = run
+        .op_events
+        .iter()
+        .enumerate()
+        .filter_map(|(i, (s, _))| case.seq.ops.get(i).filter(|o| o.modifies()).map(|o| (*s, o.clone())))
+        .collect();
+    let op_events = run.op_events.clone();
+    let ops = case.seq.ops.clone();
+    let inp = CrashInput {
+        world: &world,
+        model: &run.model,
+        bs,
+        params: run.final_params.clone().unwrap_or(case.seq.params.clone()),
+        sync_points: &run.sync_points,
+        calls,
+        phase: Box::new(move |p| {
+            let i = op_at(&op_events, p);
+            (i, i.and_then(|i| ops.get(i)).map(|o| o.kind()).unwrap_or("-"))
+        }),
+    };
+    analyse(&inp, &case.crash, cfg, &mut out);
+    out
+}
+
+/// Enumerate crash points and crash images of an executed history and judge them
+pub fn analyse(inp: &CrashInput, crash: &[u16], cfg: &CrashCfg, out: &mut CrashRun) {
+    let world = inp.world;
+    let bs = inp.bs;
+    let cs = inp.model.cs;
     let last_ev = world.now();
     out.stats.events = last_ev;
-    out.stats.sync_points = run.sync_points.len();
+    out.stats.sync_points = inp.sync_points.len();
 
     // ---- crash points ------------------------------------------------------------------
     let mut pts: Vec<u64> = Vec::new();
@@ -139,7 +180,7 @@ pub fn run_crash(case: &CrashCase, cfg: &CrashCfg) -> CrashRun {
     }
     pts.push(last_ev);
     // generated extra points
-    for c in case.crash.iter().take(8) {
+    for c in crash.iter().take(8) {
         pts.push(1 + pick1(*c, last_ev as usize) as u64);
     }
     pts.extend(rest);
@@ -154,7 +195,7 @@ pub fn run_crash(case: &CrashCase, cfg: &CrashCfg) -> CrashRun {
     pts.sort_unstable();
 
     let mut seen_img: HashSet<u64> = HashSet::new();
-    let mut crash_src = case.crash.iter().skip(8).copied().chain(std::iter::repeat(0));
+    let mut crash_src = crash.iter().skip(8).copied().chain(std::iter::repeat(0));
     let mut images_left = cfg.max_images;
 
     for &p in &pts {
@@ -168,14 +209,12 @@ pub fn run_crash(case: &CrashCase, cfg: &CrashCfg) -> CrashRun {
         }
         out.stats.points += 1;
         out.stats.max_volatile = std::cmp::max(out.stats.max_volatile, k);
-        let opi = op_at(&run.op_events, p);
-        if let Some(i) = opi {
-            match case.seq.ops.get(i) {
-                Some(Op::Flush) | Some(Op::Shrink) | Some(Op::Reopen { .. }) => out.stats.points_inside_flush += 1,
-                Some(Op::Write { .. }) => out.stats.points_inside_write += 1,
-                Some(Op::Discard { .. }) => out.stats.points_inside_discard += 1,
-                _ => {}
-            }
+        let (opi, phase) = (inp.phase)(p);
+        match phase {
+            "flush" | "shrink" | "reopen" => out.stats.points_inside_flush += 1,
+            "write" => out.stats.points_inside_write += 1,
+            "discard" => out.stats.points_inside_discard += 1,
+            _ => {}
         }
         let has_meta = base.volatile.iter().any(|v| v.len < cs || v.off == 0 || v.data.is_none());
         let all_img = base.image_subset(&|_| true);
@@ -239,20 +278,13 @@ pub fn run_crash(case: &CrashCase, cfg: &CrashCfg) -> CrashRun {
             if has_meta && h != all_h && h != dur_h {
                 out.stats.nontrivial_images += 1;
             }
-            let where_ = format!(
-                "crash at event {p} (during op {:?} {}), {} un-synced requests, {}",
-                opi,
-                opi.and_then(|i| case.seq.ops.get(i)).map(|o| o.kind()).unwrap_or("-"),
-                k,
-                desc
-            );
+            let where_ = format!("crash at event {p} (during op {:?} {}), {} un-synced requests, {}", opi, phase, k, desc);
             if cfg.check_safe {
                 let rep = checker::check(&img, Mode::CrashSafe);
                 if !rep.leaked.is_empty() {
                     out.stats.leaked_images += 1;
                 }
                 if !rep.ok(Mode::CrashSafe) {
-                    let phase = opi.and_then(|i| case.seq.ops.get(i)).map(|o| o.kind()).unwrap_or("-");
                     let vol: Vec<String> = base
                         .volatile
                         .iter()
@@ -265,43 +297,36 @@ pub fn run_crash(case: &CrashCase, cfg: &CrashCfg) -> CrashRun {
                             .tag(if torn { "torn" } else { "whole" })
                             .tag("crash"),
                     );
-                    return out;
+                    return;
                 }
             }
             if cfg.check_durable {
-                if let Some(v) = durable_check(case, &run, &world, &img, p, &where_, &mut out.stats) {
+                if let Some(v) = durable_check(inp, &img, p, &where_, &mut out.stats) {
                     out.violation = Some(v);
-                    return out;
+                    return;
                 }
             }
         }
     }
-    out
 }
 
 /// C05: open the crash image and compare every block with {synced value} U {later values}
-fn durable_check(case: &CrashCase, run: &SeqRun, world: &World, img: &[u8], p: u64, where_: &str, stats: &mut CrashStats) -> Option<Violation> {
+fn durable_check(inp: &CrashInput, img: &[u8], p: u64, where_: &str, stats: &mut CrashStats) -> Option<Violation> {
+    let world = inp.world;
     // latest sync point completed at or before p
-    let (sync_ev, synced) = run.sync_points.iter().rev().find(|(ev, _)| *ev <= p)?;
+    let (sync_ev, synced) = inp.sync_points.iter().rev().find(|(ev, _)| *ev <= p)?;
     stats.durable_checks += 1;
-    let cs = run.model.cs;
-    let vsize = run.model.vsize;
+    let cs = inp.model.cs;
+    let vsize = inp.model.vsize;
     // ops invoked after the sync and started before the crash
-    let mut later: Vec<&Op> = Vec::new();
-    for (i, (s, _e)) in run.op_events.iter().enumerate() {
-        if *s >= *sync_ev && *s <= p {
-            if let Some(op) = case.seq.ops.get(i) {
-                later.push(op);
-            }
-        }
-    }
+    let later: Vec<&Op> = inp.calls.iter().filter(|(s, _)| *s >= *sync_ev && *s <= p).map(|(_, o)| o).collect();
     let w2 = World::new();
     w2.add_file(&layer_name(0), img.to_vec());
     let n = world.0.borrow().files.len();
     for id in 1..n {
         w2.add_file(&layer_name(id), world.bytes(id));
     }
-    let params = run.final_params.clone().unwrap_or(case.seq.params.clone());
+    let params = inp.params.clone();
     let dev = match open_chain(&w2, 0, &params, true) {
         Ok(Ok(d)) => d,
         Ok(Err(e)) => {
@@ -352,7 +377,7 @@ fn durable_check(case: &CrashCase, run: &SeqRun, world: &World, img: &[u8], p: u
                     }
                 }
                 Op::Discard { off, len } => {
-                    let r = run.model.discard_range(*off, *len);
+                    let r = inp.model.discard_range(*off, *len);
                     if r.contains(&(s / cs)) {
                         shares = true;
                         if g.iter().all(|x| *x == 0) {
@@ -386,6 +411,80 @@ fn durable_check(case: &CrashCase, run: &SeqRun, world: &World, img: &[u8], p: u
         }
     }
     None
+}
+
+/// A concurrent history (batches of tasks under a generated schedule) plus crash choices
+#[derive(Clone, Debug, PartialEq, Eq, Serialize, Deserialize)]
+pub struct ConcCrashCase {
+    pub conc: crate::conc::ConcCase,
+    pub crash: Vec<u16>,
+}
+
+/// Crash analysis of a concurrent history: the request stream of batches of concurrently running
+/// calls is cut at crash points exactly like a sequential one. With `sync` the device is flushed
+/// and synced at every quiescent point (sequentially), which gives C05 its sync points.
+pub fn run_crash_conc(case: &ConcCrashCase, cfg: &CrashCfg, sync: bool) -> CrashRun {
+    use crate::conc::{run_conc, ConcCfg};
+    let mut out = CrashRun {
+        growth: Growth::default(),
+        violation: None,
+        foreign: None,
+        inconclusive: None,
+        stats: CrashStats::default(),
+    };
+    let ccfg = ConcCfg {
+        linearizability: true,
+        final_reopen: false,
+        keep_data: true,
+        sync_after_batch: sync,
+        ..ConcCfg::default()
+    };
+    let run = run_conc(&case.conc, &ccfg);
+    if let Some(m) = run.inconclusive {
+        out.inconclusive = Some(m);
+        return out;
+    }
+    out.stats.ops_done = run.stats.calls;
+    // a history that broke a rule of C06/C07 is still a history (see run_crash)
+    out.foreign = run.violation.clone();
+    let model = match &run.model {
+        Some(m) => m,
+        None => return out,
+    };
+    let world = run.world.clone();
+    out.stats.requests = world.0.borrow().log.len();
+    let batches = run.trace.batch_events.clone();
+    let kinds: Vec<&'static str> = case
+        .conc
+        .batches
+        .iter()
+        .map(|b| {
+            let has = |f: &dyn Fn(&Op) -> bool| b.iter().flatten().any(|o| f(o));
+            if has(&|o| matches!(o, Op::Flush | Op::Shrink)) {
+                "flush"
+            } else if has(&|o| matches!(o, Op::Discard { .. })) {
+                "discard"
+            } else if has(&|o| matches!(o, Op::Write { .. })) {
+                "write"
+            } else {
+                "-"
+            }
+        })
+        .collect();
+    let inp = CrashInput {
+        world: &world,
+        model,
+        bs: case.conc.params.bs(),
+        params: case.conc.params.clone(),
+        sync_points: &run.trace.sync_points,
+        calls: run.trace.calls.clone(),
+        phase: Box::new(move |p| match batches.iter().find(|(s, e, _)| *s <= p && p <= *e) {
+            Some((_, _, bi)) => (Some(*bi), kinds.get(*bi).copied().unwrap_or("-")),
+            None => (None, "flush"), // between batches: the sequential flush + fsync
+        }),
+    };
+    analyse(&inp, &case.crash, cfg, &mut out);
+    out
 }
 
 /// Decode a crash case: a sequential case whose history contains sync points
@@ -485,6 +584,26 @@ pub fn crashdump(case: &CrashCase, p: u64) -> String {
                 checker::stored_refcount(&img, rep.header.as_ref().unwrap(), off >> rep.header.as_ref().unwrap().cluster_bits),
             _ => None,
         });
+    }
+    s
+}
+
+/// Debug helper: request log of a concurrent crash case
+pub fn explain_conc(case: &ConcCrashCase, sync: bool) -> String {
+    use crate::conc::{run_conc, ConcCfg};
+    let ccfg = ConcCfg { linearizability: true, final_reopen: false, keep_data: true, sync_after_batch: sync, ..ConcCfg::default() };
+    let run = run_conc(&case.conc, &ccfg);
+    let w = run.world.0.borrow();
+    let cs = run.model.as_ref().map(|m| m.cs as u64).unwrap_or(512);
+    let mut s = format!("cluster size {cs}, violation {:?}\n", run.violation.as_ref().map(|v| &v.msg));
+    for (bi, b) in case.conc.batches.iter().enumerate() {
+        s += &format!("batch {bi}: {:?} events {:?}\n", b, run.trace.batch_events.get(bi));
+    }
+    for r in w.log.iter() {
+        s += &format!(
+            "    seq {:3} f{} {:?} off {:6} (cluster {:3}+{:4}) len {:6} submit {} complete {:?} ok {}\n",
+            r.seq, r.file, r.kind, r.off, r.off / cs, r.off % cs, r.len, r.submit_ev, r.complete_ev, r.ok
+        );
     }
     s
 }
